@@ -276,8 +276,10 @@ func C06(c *wk.Ctx) {
 		c.Begin(run)
 		u := wk.NewUnit(run)
 		r := simrt.NewRNG(c.UnitSeed(run, 6))
+		var digest uint64
 		exec := func(cs *c06Case, cc *sut.Compiled) c06Obs {
 			f, obs := c06Exec(cs, cc)
+			digest = digest*1099511628211 ^ uint64(obs.steps)<<1 ^ wk.FNV(fmt.Sprint(obs.err, obs.fired, obs.writes, obs.vfailCalls))
 			u.Evals++
 			u.Steps += obs.steps
 			if obs.fired != "" {
@@ -411,6 +413,7 @@ func C06(c *wk.Ctx) {
 				u.Counters["globals_parses"]++
 			}
 		}
+		u.Observe("digest", fmt.Sprintf("%016x", digest))
 		c.Emit(u)
 	}
 }
